@@ -78,7 +78,7 @@ pub struct WelcomeInfo {
     pub from_commit: Option<String>, // commit event name (None for group creation)
     pub chain: String,               // chain the joiner lands on
     pub g: String,
-    pub wrapper: EventId,
+    pub wrappers: Vec<EventId>,
 }
 
 pub struct World {
@@ -445,7 +445,7 @@ impl World {
                                 from_commit: Some(name.clone()),
                                 chain: chain_push(&parent, &name),
                                 g: g.to_string(),
-                                wrapper: wid,
+                                wrappers: vec![wid],
                             },
                         );
                         wnames.push(wn);
@@ -577,15 +577,22 @@ impl World {
         json!({"op":"Restart","c":c,"posts":posts})
     }
 
-    pub fn op_welcome(&mut self, c: &str, w: &str, what: &str) -> Value {
+    pub fn op_welcome(&mut self, c: &str, w: &str, what: &str, fresh: bool) -> Value {
+        if fresh {
+            let wid = EventId::from_slice(&rand::random::<[u8; 32]>()).unwrap();
+            self.welcomes.get_mut(w).unwrap().wrappers.push(wid);
+        }
         let wi = &self.welcomes[w];
+        let xi = wi.wrappers.len();
+        let wrapper = wi.wrappers[xi - 1];
+        let xname = format!("{w}x{xi}");
         let g = wi.g.clone();
         let chain = wi.chain.clone();
         let cl = &self.clients[c];
         let st = cl.store.as_ref().unwrap();
         let res: String = match what {
             "process" => {
-                let r = catch_unwind(AssertUnwindSafe(|| with_mdk!(st, m => m.process_welcome(&wi.wrapper, &wi.rumor))));
+                let r = catch_unwind(AssertUnwindSafe(|| with_mdk!(st, m => m.process_welcome(&wrapper, &wi.rumor))));
                 match r { Err(_) => "Panic".into(), Ok(Err(_)) => "Err".into(), Ok(Ok(_)) => "Ok".into() }
             }
             "accept" | "decline" => {
@@ -607,7 +614,7 @@ impl World {
         if what == "accept" {
             let _ = self.chain_of(c, &g, Some(&chain));
         }
-        json!({"op":"Welcome","c":c,"g":g,"w":w,"what":what,"res":res,"chain":chain_json(&chain),"post":self.project(c,&g)})
+        json!({"op":"Welcome","c":c,"g":g,"w":w,"x":xname,"what":what,"res":res,"chain":chain_json(&chain),"post":self.project(c,&g)})
     }
 
     /// Projection of client `c`'s view of group `g` to the abstract state (null-free JSON).
